@@ -88,14 +88,14 @@ func main() {
 	socket.SetMessageSizeLimit(sizeLimit)
 	gz := RegTestFilters()
 	st := NewStats("C01", cfg)
-	st.Rule = "live sessions: 2 connection pairs per configuration served by one server peer and one client peer; G goroutines per session side (8 quick / 64 thorough) x -n operations each (call / async call / push, both directions) over protocol {raw,json,pb} x body {bytes,plain,json} x pipe {none,g,m,gm}; every region (args, each meta value, result, reply meta) is a function of the operation's tag, lengths 0,1..36,~300,3000..6000; epochs end at quiescence, every 4th epoch runs with half-written frames stalled on each conn, every 4th with handlers parked at call.prereply / handle.enter and released newest first. distinct = (configuration, tag); non-trivial = non-empty args"
+	st.Rule = "live sessions: 2 connection pairs per configuration served by one server peer and one client peer; G goroutines per session side (8 quick / 16 thorough, i.e. 32 / 64 per configuration) x -n operations each (call / async call / push, both directions) over protocol {raw,json,pb} x body {bytes,plain,json} x pipe {none,g,m,gm}; every region (args, each meta value, result, reply meta) is a function of the operation's tag, lengths 0,1..36,~300,3000..6000; epochs end at quiescence, every 4th epoch runs with half-written frames stalled on each conn, every 4th with handlers parked at call.prereply / handle.enter and released newest first. distinct = (configuration, tag); non-trivial = non-empty args"
 	w := NewCaseWriter(cfg)
 
 	specs := quickConfigs()
 	G := 8
 	if cfg.Tier == "thorough" {
 		specs = allConfigs()
-		G = 64
+		G = 16 // 64 goroutines per configuration: 2 sessions x 2 sides x 16
 	}
 	if cfg.Tier != "thorough" {
 		caseBudget = 1500 << 10
